@@ -5,7 +5,7 @@ CONSTANTS
   Plan <- MCPlan
   RootTags <- MCRootTags
   Elems <- MCElems
-  Budget = 3
+  Budget = 4
   MaxDepth = 2
 INIT Init
 NEXT Next
